@@ -35,8 +35,15 @@ def _one_run(base, i, tier):
     st = {}
     r = ad.execute(plan, st)
     viols = r.get('violations') or []
-    known = [v['key'] for v in viols if v['key'] in KNOWN_KEYS]
-    unknown = [v for v in viols if v['key'] not in KNOWN_KEYS]
+    def known_key(v):
+        if v['key'] in KNOWN_KEYS:
+            return v['key']
+        for a_ in v.get('alt_keys') or []:      # link witnesses: the recorded site may be any package frame of the traceback
+            if a_ in KNOWN_KEYS:
+                return a_
+        return None
+    known = [known_key(v) for v in viols if known_key(v)]
+    unknown = [v for v in viols if not known_key(v)]
     # one entry per distinct key and run
     seen = set()
     uniq = []
